@@ -58,6 +58,16 @@ def run():
             continue
         texts = [js] + [jsongen.render_event(rng, v, unknown=rng.choice([0, 1, 2])) for _ in range(4)]
         stage3.append((v, bts, texts))
+    # equality as the library defines it (==, Hash, tag sections, owned values) across buffers at different addresses
+    # modulo 8 with different prior contents: denotations of one event compare equal
+    eq_lines = []
+    for v, bts, texts in stage3:
+        for tx in texts[1:3]:
+            eq_lines.append('EQL %s %s %d' % (hx(texts[0]), hx(tx), rng.randrange(1, 1 << 40)))
+    for l, a in zip(eq_lines, c.worker.run(eq_lines)):
+        c.evaluations += 1
+        if a != 'ok eq=1 hash=1 teq=1 own=1 bytes=1':
+            c.violation('oracle', 'two texts denoting one event, parsed into differently placed buffers, do not compare equal: %s' % a[:60], [l[:3000]])
     lines3 = []
     for v, bts, texts in stage3:
         for tx in texts:
